@@ -92,9 +92,11 @@ PROPS = {
                   "assignment; no noexcept function can reach a library throw; beliefs (DSPLIB_ASSUME/assert) of internal helpers "
                   "are entailed by live checks along every call chain from the public entry points (through constructors, "
                   "make_shared and construction-time constant members) where the chain is modelled; no integer division by "
-                  "never-initialised member state",
-        "not_decided": "value-range safety of index arithmetic inside kernels (twiddle indices, polyphase offsets), termination "
-                       "and complexity (except the C15 clause)",
+                  "never-initialised member state; every subscript of a parameter / local vector whose index is affine in "
+                  "counted-loop variables and whose size is fixed by a live check or by construction stays inside the container (G7)",
+        "not_decided": "value-range safety of index arithmetic outside the affine fragment of G7 (subscripts of members, of results of "
+                       "solve(), indices loaded from data or formed from products of variables), termination and complexity "
+                       "(except the C15 clause)",
         "explanation": "G1 enumerates every solve() of every plan class with delegation closure over the call graph (virtual calls "
                        "fanned out to all overriders); G2 enumerates every unchecked subscript in every function with container "
                        "parameters whose index bound comes from another container or from caller data; E1 runs whole-program "
